@@ -534,7 +534,9 @@ inductive Kind where
   | any      -- a call cut off by the end of the run: optional, any form
   deriving DecidableEq, Repr
 
-/-- Some completed calls of one item. `cfg = none`: the level configuration changed during the call. -/
+/-- Some completed calls of one item. `cfg = none`: the level configuration changed during the call. For a
+    tracer submission "the call" is the tracer's whole life, from `AddTracer` to the return of `Submit`: the
+    level decision for everything it carries is taken once, by `AddTracer`. -/
 structure Seg where
   cfg : Option Levels
   before : Bool          -- the call returned before Shutdown was requested
@@ -548,13 +550,17 @@ structure Item where
   kind : Kind
   segs : List Seg
   entries : List Nat     -- tracer: the items of the attached entries
+  low : Nat              -- the lowest severity among the lines the call hands over: `lvl` for a plain call; for a
+                         -- submission the minimum over its collected entries and its main line
   deriving Repr
 
-/-- Is a call of this kind emitted under configuration `c`? -/
+/-- Is a call of this kind emitted under configuration `c`? A plain call: iff its severity is at or above the
+    level in force for its origin. A submission (configuration unchanged from `AddTracer` to `Submit`): iff EVERY
+    line it carries is — "messages below the level in force are never emitted" holds for collected lines too. -/
 def Item.on (e : Item) (c : Levels) : Bool :=
   match e.kind with
   | .plain => enabled c (some e.org) e.lvl
-  | .tracer => true
+  | .tracer => enabled c (some e.org) e.low
   | .any => true
 
 /-- Lines that MUST reach the adapter: enabled under a stable configuration, completed before Shutdown. -/
@@ -705,6 +711,24 @@ def checkTracers (outs : List OutW) (exps : Nat → List Item) : Nat → Nat →
     | some m => .fail "tracer-lost" gid m.item
     | none => checkTracers outs exps (gid + 1) n
 
+/-! "Messages below the level in force are never emitted", line by line: an output line that belongs to items
+    of its goroutine none of which may be emitted at all (every call of them was made below the level in force,
+    under a configuration that did not change during the call) is named first — the walk along the items would
+    only report the first place where its cutting into blocks fails, which may be elsewhere. -/
+
+/-- The line has the identity and form of some item, and every such item has `hi = 0`. -/
+def neverAllowed (es : List Item) (g : Got) : Bool :=
+  es.any (·.matches g) && !es.any (fun e => e.matches g && decide (0 < e.hi))
+
+/-- (Only lines that match an item with `hi = 0` need the full test; usually there are few such items.) -/
+def checkFiltered (outs : List OutW) (exps : Nat → List Item) : Nat → Nat → Verdict
+  | _, 0 => .pass
+  | gid, n + 1 =>
+    let dead := (exps gid).filter (·.hi == 0)
+    match (expandOut gid outs).find? (fun g => dead.any (·.matches g) && neverAllowed (exps gid) g) with
+    | some g => .fail "filtered" gid g.item
+    | none => checkFiltered outs exps (gid + 1) n
+
 def checkRun (np : Nat) (exps : Nat → List Item) (outs : List OutW) : Verdict :=
   match outs.find? (fun o => o.gid ≥ np) with
   | some o => .fail "unexpected" o.gid o.item
@@ -712,8 +736,11 @@ def checkRun (np : Nat) (exps : Nat → List Item) (outs : List OutW) : Verdict 
     match outs.find? OutW.mergedTracer with
     | some o => .fail "trace" o.gid o.item
     | none =>
-      match checkTracers outs exps 0 np with
-      | .pass => checkProds outs exps 0 np
+      match checkFiltered outs exps 0 np with
+      | .pass =>
+        match checkTracers outs exps 0 np with
+        | .pass => checkProds outs exps 0 np
+        | v => v
       | v => v
 
 end PB.Log
